@@ -40,8 +40,17 @@ Section Block.
   Qed.
 
   (* instantiated field lemmas *)
-  Ltac inst L := apply L; first [apply lenN_stn | apply lenN_itn8 | apply lenN_itn12 | exact LF6 | exact Lty
-                                | exact Lmagic | apply lenN_zeros].
+  (* syntactic dispatch: [apply lenN_stn] on a goal about [zeros]/[GNU_MAGIC] sends unification into a very long search *)
+  Ltac lensolve := match goal with
+    | |- lenN (stn _ _) = _ => apply lenN_stn
+    | |- lenN (itn8 _) = _ => apply lenN_itn8
+    | |- lenN (itn12 _) = _ => apply lenN_itn12
+    | |- lenN (zeros _) = _ => apply lenN_zeros
+    | |- lenN F6 = _ => exact LF6
+    | |- lenN GNU_MAGIC = _ => reflexivity
+    | |- lenN [_] = _ => reflexivity
+    end.
+  Ltac inst L := apply L; lensolve.
   Lemma B_len : lenN B = 512. Proof. unfold B. inst blk_len. Qed.
   Lemma B_name : slice 0 100 B = stn name 100. Proof. unfold B. inst fld_name. Qed.
   Lemma B_mode : slice 100 108 B = itn8 mode. Proof. unfold B. inst fld_mode. Qed.
@@ -55,5 +64,49 @@ Section Block.
   Lemma B_dmin : slice 337 345 B = zeros 8. Proof. unfold B. inst fld_devminor. Qed.
   Lemma B_prefix : slice 345 500 B = zeros 155. Proof. unfold B. inst fld_prefix. Qed.
   Lemma B_take : takeN 148 B = hdr_pre name mode size mt.
-  Proof. unfold B. rewrite blk_take148; [reflexivity|inst idtac..]. Qed.
+  Proof. unfold B. rewrite blk_take148; [reflexivity|lensolve..]. Qed.
+  Lemma B_drop : dropN 156 B = hdr_post ty link mt.
+  Proof. unfold B. rewrite blk_drop156; [reflexivity|lensolve..]. Qed.
+  Lemma B_type : nth 156 B 0 = ty.
+  Proof.
+    rewrite nth_hd_skipn. change 156%nat with (N.to_nat 156). rewrite <- dropN_skipn, B_drop. reflexivity.
+  Qed.
+  Lemma B_chk_val : nti (slice 148 156 B) = NOk c.
+  Proof. rewrite B_chk. unfold F6. apply (nti_digits 5 c [32]). exact c_bound. Qed.
+  Lemma B_chk_ok : chk_ok c B = true.
+  Proof. unfold chk_ok. rewrite B_take, B_drop. fold c. rewrite N.eqb_refl. reflexivity. Qed.
+  Lemma B_nonzero : forallb (N.eqb 0) B = false.
+  Proof.
+    unfold B, blk. rewrite forallb_app. apply andb_false_iff. right.
+    unfold itn8 at 1. rewrite <- app_assoc. apply forallb_dig_false.
+  Qed.
+  Lemma B_mode_val : nti (slice 100 108 B) = NOk mode.
+  Proof. rewrite B_mode. apply (nti_digits 6 mode []). exact Hmode. Qed.
+  Lemma B_uid_val : nti (slice 108 116 B) = NOk (m_uid mt).
+  Proof. rewrite B_uid. apply (nti_digits 6 _ []). apply Hm. Qed.
+  Lemma B_gid_val : nti (slice 116 124 B) = NOk (m_gid mt).
+  Proof. rewrite B_gid. apply (nti_digits 6 _ []). apply Hm. Qed.
+  Lemma B_size_val : nti (slice 124 136 B) = NOk size.
+  Proof. rewrite B_size. apply (nti_digits 10 size []). exact Hsize. Qed.
+  Lemma B_mtime_val : nti (slice 136 148 B) = NOk (m_mtime mt).
+  Proof. rewrite B_mtime. apply (nti_digits 10 _ []). apply Hm. Qed.
+  Lemma B_dmaj_val : nti (slice 329 337 B) = NOk 0. Proof. rewrite B_dmaj. reflexivity. Qed.
+  Lemma B_dmin_val : nti (slice 337 345 B) = NOk 0. Proof. rewrite B_dmin. reflexivity. Qed.
+  Lemma B_prefix_val : nts (slice 345 500 B) = []. Proof. rewrite B_prefix. apply nts_zeros. Qed.
+
+  Hypothesis Hty0 : ty <> 0.
+  Hypothesis HtyS : ty <> T_GNUSPARSE.
+  Lemma frombuf_B : frombuf B = HOk (hdr_read name mode size ty link).
+  Proof.
+    unfold frombuf. rewrite B_len, B_nonzero, B_chk_val, B_chk_ok.
+    change (512 =? 0) with false. change (512 =? 512) with true. cbv beta iota. cbn [negb].
+    rewrite B_mode_val, B_uid_val, B_gid_val, B_size_val, B_mtime_val, B_dmaj_val, B_dmin_val.
+    rewrite B_name, B_link, B_prefix_val, B_type.
+    cbn [nres_all existsb orb].
+    assert (ty =? T_AREG = false) as -> by (apply N.eqb_neq; exact Hty0). cbn [andb].
+    assert (ty =? T_GNUSPARSE = false) as -> by (apply N.eqb_neq; exact HtyS).
+    unfold hdr_read. destruct (ty =? T_DIR); reflexivity.
+  Qed.
+  Theorem frombuf_hdr_block : frombuf (hdr_block name mode size ty link mt) = HOk (hdr_read name mode size ty link).
+  Proof. rewrite hdr_block_B. exact frombuf_B. Qed.
 End Block.
